@@ -78,7 +78,7 @@ type tierCfg struct {
 }
 
 var props = map[string]tierCfg{
-	"C07": {QuickRuns: 16000, QuickBudgetS: 40, ThoroughS: 600, Race: true, RaceQuickRuns: 4000, Level: "exploration"},
+	"C07": {QuickRuns: 12000, QuickBudgetS: 40, ThoroughS: 600, Race: true, RaceQuickRuns: 3000, Level: "exploration"},
 	"C09": {QuickRuns: 48000, QuickBudgetS: 40, ThoroughS: 600, Level: "exploration"},
 	"C10": {QuickRuns: 30000, QuickBudgetS: 40, ThoroughS: 600, Race: true, RaceQuickRuns: 6000, Level: "exploration"},
 	"C14": {QuickRuns: 16000, QuickBudgetS: 40, ThoroughS: 600, Level: "exploration"},
